@@ -259,33 +259,35 @@ def dispatch (rf : RFrame) : CM FE :=
   | .altsvc sid origin field => receiveAltSvcFrame sid origin field
   | .ext t fl sid body => pure ([], [Event.UnknownFrameReceived t fl sid body])
 
+/-- the `except StreamClosedError` / `except StreamIDTooLowError` clauses of `_receive_frame` -/
+def frameErrorHandler (e : Exc) : CM (List Event) :=
+  match e with
+  | .h2 cls code esid evs =>
+    if cls.isSub .StreamClosedError then do
+      let c ← getS
+      if closedByReset c (esid.getD 0) then do
+        connInput .SEND_RST_STREAM
+        prepareForSending [Frame.rstStream (esid.getD 0) (code.getD 0)]
+        pure evs
+      else raise e
+    else do
+      let c ← getS
+      if closedByReset c (esid.getD 0) then do
+        connInput .SEND_RST_STREAM
+        prepareForSending [Frame.rstStream (esid.getD 0) ErrorCodes.STREAM_CLOSED]
+        pure []
+      else if closedByEnd c (esid.getD 0) then raise (mkStreamClosed (esid.getD 0))
+      else raise e
+  | _ => raise e
+
 /-- `_receive_frame` -/
-def receiveFrame (rf : RFrame) : CM (List Event) := fun c =>
-  match dispatch rf c with
-  | (.ok (frames, events), c) =>
-    match prepareForSending frames c with
-    | (.ok _, c) => (.ok events, c)
-    | (.error e, c) => (.error e, c)
-  | (.error e, c) =>
-    match e with
-    | .h2 cls code esid evs =>
-      if cls.isSub .StreamClosedError then
-        if closedByReset c (esid.getD 0) then
-          match (do connInput .SEND_RST_STREAM
-                    prepareForSending [Frame.rstStream (esid.getD 0) (code.getD 0)] : CM Unit) c with
-          | (.ok _, c) => (.ok evs, c)
-          | (.error e, c) => (.error e, c)
-        else (.error e, c)
-      else if cls.isSub .StreamIDTooLowError then
-        if closedByReset c (esid.getD 0) then
-          match (do connInput .SEND_RST_STREAM
-                    prepareForSending [Frame.rstStream (esid.getD 0) ErrorCodes.STREAM_CLOSED] : CM Unit) c with
-          | (.ok _, c) => (.ok [], c)
-          | (.error e, c) => (.error e, c)
-        else if closedByEnd c (esid.getD 0) then (.error (mkStreamClosed (esid.getD 0)), c)
-        else (.error e, c)
-      else (.error e, c)
-    | _ => (.error e, c)
+def receiveFrame (rf : RFrame) : CM (List Event) := do
+  let r ← tryCatch (do let fe ← dispatch rf; pure (Sum.inl fe))
+    (fun e => e.isInstance .StreamClosedError || e.isInstance .StreamIDTooLowError)
+    (fun e => do let evs ← frameErrorHandler e; pure (Sum.inr evs))
+  match r with
+  | .inl (frames, events) => do prepareForSending frames; pure events
+  | .inr evs => pure evs
 
 /-- `_terminate_connection(error_code)` -/
 def terminateConnection (code : Int) : CM Unit := do
